@@ -16,6 +16,7 @@ import (
 	"go/token"
 	"go/types"
 	"os"
+	"os/exec"
 	"path/filepath"
 	"sort"
 	"strconv"
@@ -164,6 +165,11 @@ func run(repo, out, overlayDir string) error {
 			overlay[filepath.Join(repo, p, filepath.Base(m))] = m
 		}
 	}
+	// gorilla/websocket serialises writers with a one-element channel; a task that
+	// waits for it must wait under the simulator's control (see simrt.ChanLock)
+	if err := patchGorilla(repo, out, overlay); err != nil {
+		return fmt.Errorf("gorilla/websocket write lock: %v", err)
+	}
 	for _, need := range []string{"seam:ListenAndServeTLS", "seam:Dialer", "seam:NewZeroconfProvider", "seam:avahi.ServerNew"} {
 		if seams[need] == 0 {
 			return fmt.Errorf("required seam pattern %q not found in the tree", need)
@@ -178,6 +184,63 @@ func run(repo, out, overlayDir string) error {
 		return err
 	}
 	return nil
+}
+
+// patchGorilla puts a copy of gorilla/websocket's conn.go with its two lock
+// acquisitions replaced into the overlay. The patterns are exact: another
+// version of the dependency fails the build step (exit 2), never silently.
+func patchGorilla(repo, out string, overlay map[string]string) error {
+	cmd := exec.Command("go", "list", "-m", "-f", "{{.Dir}}", "github.com/gorilla/websocket")
+	cmd.Dir = repo
+	cmd.Env = append(os.Environ(), "GOFLAGS=-mod=mod", "GOPROXY=off", "GOSUMDB=off")
+	b, err := cmd.Output()
+	if err != nil {
+		return fmt.Errorf("go list: %v", err)
+	}
+	dir := strings.TrimSpace(string(b))
+	path := filepath.Join(dir, "conn.go")
+	src, err := os.ReadFile(path)
+	if err != nil {
+		return err
+	}
+	s := string(src)
+	reps := [][2]string{
+		{"\t<-c.mu\n\tdefer func() { c.mu <- struct{}{} }()\n", "\tsimrt.ChanLock(\"gorilla write\", c.mu)\n\tdefer func() { c.mu <- struct{}{} }()\n"},
+		{"\tselect {\n\tcase <-c.mu:\n\t\ttimer.Stop()\n\tcase <-timer.C:\n\t\treturn errWriteTimeout\n\t}\n", "\tif !simrt.ChanLockTimer(\"gorilla control\", c.mu, timer) {\n\t\treturn errWriteTimeout\n\t}\n"},
+		{"import (\n", "import (\n\t\"verif/simrt\"\n"},
+	}
+	for _, r := range reps {
+		if strings.Count(s, r[0]) < 1 {
+			return fmt.Errorf("pattern not found in %s: %q", path, r[0])
+		}
+		s = strings.Replace(s, r[0], r[1], 1)
+	}
+	// files beneath GOMODCACHE must not be replaced by an overlay: a patched copy of
+	// the module, used through a replace directive of the build's module file
+	cp := filepath.Join(out, "gorilla-websocket")
+	if err := os.MkdirAll(cp, 0o755); err != nil {
+		return err
+	}
+	ents, err := os.ReadDir(dir)
+	if err != nil {
+		return err
+	}
+	for _, e := range ents {
+		if e.IsDir() || strings.HasSuffix(e.Name(), "_test.go") {
+			continue
+		}
+		data, err := os.ReadFile(filepath.Join(dir, e.Name()))
+		if err != nil {
+			return err
+		}
+		if e.Name() == "conn.go" {
+			data = []byte(s)
+		}
+		if err := os.WriteFile(filepath.Join(cp, e.Name()), data, 0o644); err != nil {
+			return err
+		}
+	}
+	return os.WriteFile(filepath.Join(out, "replaces.txt"), []byte("github.com/gorilla/websocket => "+cp+"\n"), 0o644)
 }
 
 // ------------------------------------------------------------------ rewrite
